@@ -175,6 +175,20 @@ PROPS = {
         "stubs": ["fastrand::i64(lo..hi) returns r with lo <= r < hi; fastrand::f64() returns r in [0,1)", "Mutex::lock/guard deref = one abstract cell", "format!/Arguments are opaque events (template constant compared)"],
         "assumptions": ["rustc nightly MIR text = the code that is compiled", "mirsym's MIR subset semantics (/verif/mirsym/sym.py)", "z3 5.1 and cvc5 1.0.3 (every query on both; disagreement = inconclusive)"],
     },
+    "C21": {
+        "engines": ["E2 mirsym+z3/cvc5"],
+        "e2": True,
+        "functions": [
+            ("rsass::output::transform::handle_item (Item::Error arm)", "output/transform.rs", r"Item::Error\(value, pos\) =>"),
+            ("<RuleDest as Drop>::drop", "output/cssdest.rs", r"impl Drop for RuleDest"),
+            ("<AtRuleDest as Drop>::drop", "output/cssdest.rs", r"impl Drop for AtRuleDest"),
+            ("<AtMediaDest as Drop>::drop", "output/cssdest.rs", r"impl Drop for AtMediaDest"),
+        ],
+        "bounds": {"quick": "the @error arm of handle_item for any message/position; each of the three destination Drop impls from an arbitrary destination state, the parent's answer (Ok/Err) symbolic"},
+        "outside": "@error inside functions (eval_body) is checked only by native probes; which statements are accepted in which container (check_body); everything the parser decides; that every reached declaration is pushed at all (push_property call sites)",
+        "stubs": ["parent.push_item / commit_rule return Ok or Err (symbolic)", "eprintln! is an event"],
+        "assumptions": ["rustc nightly MIR text = the code that is compiled", "mirsym's MIR subset semantics (/verif/mirsym/sym.py)"],
+    },
     "C26": {
         "engines": ["E2 mirsym+z3/cvc5"],
         "e2": True,
@@ -197,6 +211,15 @@ PROPS = {
         "bounds": {"quick": "ALL i64 n, every list length <= 2^32 (len symbolic)"},
         "outside": "list.index and zip (loops over Vec<css::Value> with opaque == calls), length, maps and arglists as lists, the nth closure's dispatch on list/map/scalar; the element vectors themselves are opaque (append/join are decided on separator/bracket selection and on which vector is pushed/appended to which)",
         "stubs": ["check::unitless_int returns Ok(arbitrary i64) or Err", "get_list / ResolvedArgs::get* are opaque events", "Vec::index_mut is an event"],
+        "assumptions": ["rustc nightly MIR text = the code that is compiled", "mirsym's MIR subset semantics (/verif/mirsym/sym.py)", "z3 5.1 and cvc5 1.0.3 (every query on both)"],
+    },
+    "C36": {
+        "engines": ["E2 mirsym+z3/cvc5"],
+        "e2": True,
+        "functions": [("rsass::output::transform::handle_item (Item::Comment arm)", "output/transform.rs", r"Item::Comment\(c\) =>")],
+        "bounds": {"quick": "the Comment arm of handle_item for ANY comment, style flag and `!` prefix symbolic"},
+        "outside": "the parser (which comments are loud/silent, where they attach), css::Comment::write re-indentation, comments inside values and selectors; the silent-comment clause is checked only by a native probe",
+        "stubs": ["Format::is_compressed and str::starts_with are symbolic booleans", "SassString::evaluate returns Ok(text) or Err", "push_comment is an event"],
         "assumptions": ["rustc nightly MIR text = the code that is compiled", "mirsym's MIR subset semantics (/verif/mirsym/sym.py)", "z3 5.1 and cvc5 1.0.3 (every query on both)"],
     },
     "C31": {
